@@ -429,12 +429,6 @@ theorem xsteps_rt (steps : List Step) (h : ∀ s ∈ steps, stepSafe s = true) :
       ∀ x ∈ xs, XmlClean x = true ∧ x.tag = "step" :=
   mapExcept_rt toXmlStep fromXmlStep _ steps (fun s hs => xstep_rt s (h s hs))
 
-theorem truthyStr_of_ok (o : Option String) (h : optAttrOk o = true) : truthyStr o = o := by
-  cases o with
-  | none => rfl
-  | some s => simp only [optAttrOk, Bool.and_eq_true] at h; have : s.isEmpty = false := by simpa using h.1
-              simp [truthyStr, this]
-
 theorem xresult_of (r : Result) (x : XElem) (st : Time) (hst : r.startTime = some st)
     (h1 : attr? "status" x = r.status.map (fun s => XVal.text (statusName s)))
     (h2 : attr? "status-details" x = r.statusDetails.map XVal.text)
@@ -455,7 +449,7 @@ theorem attrs_clean_result (r : Result) (a : List (String × XVal)) (h : resultA
   simp only [resultSafe, Bool.and_eq_true] at hs
   obtain ⟨⟨hst, hd⟩, _⟩ := hs
   obtain ⟨st, hst⟩ := Option.isSome_iff_exists.mp hst
-  simp only [resultAttrs, hst, truthyStr_of_ok _ hd] at h
+  simp only [resultAttrs, hst] at h
   cases h
   cases hs : r.status <;> cases hdd : r.statusDetails <;> cases he : r.endTime <;>
     simp [optAttr, endAttr, valClean, hdd, optAttrOk] at * <;> simp [hd]
@@ -477,7 +471,7 @@ theorem resultAttrs_lookups (r : Result) (a pre : List (String × XVal)) (st : T
     (pre ++ a).lookup "status-details" = r.statusDetails.map XVal.text ∧
     (pre ++ a).lookup "start-time" = some (.time st) ∧
     (pre ++ a).lookup "end-time" = r.endTime.map XVal.time := by
-  simp only [resultAttrs, hst, truthyStr_of_ok _ hd] at h
+  simp only [resultAttrs, hst] at h
   cases h
   simp only [lookup_append', hpre _ (by simp : "status" ∈ _), hpre _ (by simp : "status-details" ∈ _),
     hpre _ (by simp : "start-time" ∈ _), hpre _ (by simp : "end-time" ∈ _), Option.none_or]
@@ -488,7 +482,7 @@ theorem resultAttrs_ok (r : Result) (h : resultSafe r = true) :
     ∃ st a, r.startTime = some st ∧ resultAttrs r = .ok a := by
   simp only [resultSafe, Bool.and_eq_true] at h
   obtain ⟨st, hst⟩ := Option.isSome_iff_exists.mp h.1.1
-  refine ⟨st, optAttr "status" (r.status.map statusName) ++ optAttr "status-details" (truthyStr r.statusDetails)
+  refine ⟨st, optAttr "status" (r.status.map statusName) ++ optAttr "status-details" r.statusDetails
                      ++ [("start-time", .time st)] ++ endAttr r.endTime, hst, by simp [resultAttrs, hst]⟩
 
 theorem xresult_rt (tag : String) (r : Result) (h : resultSafe r = true) :
@@ -555,12 +549,11 @@ theorem metaChildren_clean (m : Meta) (h : metaSafe m = true) : XmlCleanList (me
   · have := hl l hlm
     obtain ⟨u, n⟩ := l
     cases n with
-    | none => simp [toXmlLink, leaf, XmlClean, XmlCleanList, optTextOk, truthyStr, optAttr, this.1]
+    | none => simp [toXmlLink, leaf, XmlClean, XmlCleanList, optTextOk, optAttr, this.1]
     | some n =>
       have h2 := this.2
-      simp only [optAttrOk, Bool.and_eq_true] at h2
-      have hne : n.isEmpty = false := by simpa using h2.1
-      simp [toXmlLink, leaf, XmlClean, XmlCleanList, optTextOk, truthyStr, optAttr, this.1, hne, valClean, h2.2]
+      simp only [optAttrOk] at h2
+      simp [toXmlLink, leaf, XmlClean, XmlCleanList, optTextOk, optAttr, this.1, valClean, h2]
 
 theorem xmeta_rt (m : Meta) (x : XElem) (rest : List XElem) (hsafe : metaSafe m = true) (hrepr : metaRepr m = true)
     (hname : attr? "name" x = some (.text m.name)) (hdesc : attr? "description" x = some (.text m.description))
@@ -596,7 +589,7 @@ theorem xmeta_rt (m : Meta) (x : XElem) (rest : List XElem) (hsafe : metaSafe m 
     mapExcept_map_id _ _ _ (fun p hp => by
       obtain ⟨u, n⟩ := p
       have := hl _ hp
-      simp only [toXmlLink, truthyStr_of_ok n this.2]
+      simp only [toXmlLink]
       cases n <;>
         simp [fromXmlLink, leaf, attrOptText, attr?, XElem.attrs, List.lookup, reqText, XElem.text, optAttr, bind, Except.bind, pure, Except.pure])
   have hd : dictFromList propKey m.properties = m.properties := dictFromList_of_distinct _ _ hrepr
